@@ -117,6 +117,48 @@ class _A1:
         self.memo[key] = out
         return out
 
+    def _expand_self_locals(self, f: Func, t: ast.AST) -> ast.AST:
+        """a local with one definition that only names a property of the grouping (`n = len(self)`, `ki = self._key_index`)
+        stands for that expression inside a test"""
+        cache = self.__dict__.setdefault("_expand_cache", {})
+        if id(t) in cache:
+            return cache[id(t)][1]
+        sd = self._single_defs_of(f)
+
+        def self_only(e: ast.AST) -> bool:
+            if isinstance(e, ast.Attribute):
+                return self_only(e.value)
+            if isinstance(e, ast.Name):
+                return e.id == "self"
+            if isinstance(e, ast.Call) and isinstance(e.func, ast.Name) and e.func.id == "len" and len(e.args) == 1 and not e.keywords:
+                return self_only(e.args[0])
+            return False
+
+        hits = [n for n in ast.walk(t) if isinstance(n, ast.Name) and n.id in sd and n.id not in f.named_params and self_only(sd[n.id])]
+        if not hits:
+            cache[id(t)] = (t, t)
+            return t
+        import copy as _copy
+
+        class _S(ast.NodeTransformer):
+            def visit_Name(self, n):
+                if n.id in sd and n.id not in f.named_params and self_only(sd[n.id]) and isinstance(n.ctx, ast.Load):
+                    return ast.copy_location(_copy.deepcopy(sd[n.id]), n)
+                return n
+        t2 = _S().visit(_copy.deepcopy(t))
+        cache[id(t)] = (t, t2)          # keeps `t` alive so that its id is not reused
+        return t2
+
+    def _single_defs_of(self, f: Func) -> Dict[str, ast.AST]:
+        sd = self._single_defs.get(f.qualname)
+        if sd is None:
+            cnt: Dict[str, List[ast.AST]] = {}
+            for n in walk_no_nested(f.node):
+                if isinstance(n, ast.Assign) and len(n.targets) == 1 and isinstance(n.targets[0], ast.Name):
+                    cnt.setdefault(n.targets[0].id, []).append(n.value)
+            sd = self._single_defs[f.qualname] = {k: v[0] for k, v in cnt.items() if len(v) == 1}
+        return sd
+
     def _mentions(self, e: ast.AST, names: Set[str]) -> bool:
         return any(isinstance(n, ast.Name) and n.id in names for n in ast.walk(e))
 
@@ -133,6 +175,7 @@ class _A1:
                 sd = self._single_defs[f.qualname] = {k: v[0] for k, v in cnt.items() if len(v) == 1}
             if t.id in sd:
                 t = sd[t.id]
+        t = self._expand_self_locals(f, t)
         txt = self._norm_cache.get(id(t))
         if txt is None:
             txt = self._norm_cache[id(t)] = norm(t)
